@@ -121,7 +121,8 @@ pub(crate) fn spec(cfg: &BlockCfg, height: u64) -> BlockSpec {
                     0 => rng.range(1, 24),
                     1 => rng.range(1, 300),
                     2 => rng.range(100, 6_000),
-                    _ => rng.range(40_000, 420_000),
+                    // at most 3 items: the whole block stays clearly below the 1 MB limit
+                    _ => rng.range(40_000, 280_000),
                 } as usize;
                 if cfg.size_class >= 3 || rng.chance(1, 2) {
                     rng.bytes(len) // incompressible
@@ -232,4 +233,17 @@ pub(crate) fn rollups_present(spec: &BlockSpec) -> Vec<u8> {
 /// Lower bound of incompressible bytes in the block (used only to classify "clearly oversized").
 pub(crate) fn raw_payload_bytes(spec: &BlockSpec) -> usize {
     spec.sequence_data.iter().map(|(_, d)| d.len()).sum()
+}
+
+/// True if the block at `height` is one of the configured oversized ones *and* the rollup that
+/// carries its single > 1 MB incompressible payload passes the filter (a filtered-out payload is
+/// not part of the submission, so the block is then small).
+pub(crate) fn oversized_effective(cfg: &BlockCfg, filter: &[u8], height: u64) -> bool {
+    if !cfg.oversized.contains(&height) {
+        return false;
+    }
+    let s = spec(cfg, height);
+    s.sequence_data
+        .iter()
+        .any(|(r, data)| data.len() > 1_000_000 && (filter.is_empty() || filter.contains(r)))
 }
